@@ -19,7 +19,7 @@ static std::string op_brief(const OpResult& o)
 static Plan gen_c06(uint64_t seed, int64_t index, bool thorough)
 {
     Rng rng(hash_seed(seed, "C06", index));
-    std::vector<std::string> pk = keys_for({ "G1", "G2", "G3", "G4", "G5", "G6", "G7", "G8", "G9", "G10", "G11", "G12", "T1" });
+    std::vector<std::string> pk = keys_for({ "G1", "G2", "G3", "G4", "G5", "G6", "G7", "G8", "G9", "G10", "G11", "G12", "G13", "T1" });
     std::vector<std::string> rk = regex_keys();
     PlanOp op;
     std::string mode;
@@ -132,7 +132,8 @@ static Plan gen_c06(uint64_t seed, int64_t index, bool thorough)
         key = rng.pick(dk);
         m = model_for(grammar_of(key));
         op = make_sentence_op(rng, key, sh);
-        int target = thorough ? int(rng.pick(std::vector<int>{ 1024, 1024, 2048, 4096 })) : int(rng.pick(std::vector<int>{ 1024, 1024, 1024, 2048 }));
+        int target = thorough ? int(rng.pick(std::vector<int>{ 1024, 1024, 2048, 4096, 65536 })) : int(rng.pick(std::vector<int>{ 1024, 1024, 1024, 2048 }));
+        if (rng.chance(1, thorough ? 12 : 40)) target = 65536;      // indices beyond 16 bits
         if (!make_deep_op(op, rng, key, target)) mode = "clean";
     }
     else
@@ -328,7 +329,7 @@ static std::vector<Violation> case_c09(const Plan& p, CaseCtx& cx)
 static Plan gen_c10(uint64_t seed, int64_t index, bool thorough)
 {
     Rng rng(hash_seed(seed, "C10", index));
-    std::vector<std::string> pk = keys_for({ "G1", "G2", "G4", "G4", "G5", "G5", "G7", "G9", "G9", "G10", "G10", "G11", "G12", "T1" }, false);
+    std::vector<std::string> pk = keys_for({ "G1", "G2", "G4", "G4", "G5", "G5", "G7", "G9", "G9", "G10", "G10", "G11", "G12", "G13", "T1" }, false);
     std::string key = rng.pick(pk);
     const ref::Model* m = model_for(grammar_of(key));
     OpShape sh;
@@ -446,7 +447,7 @@ static std::vector<Violation> case_c10(const Plan& p, CaseCtx& cx)
 static Plan gen_c08(uint64_t seed, int64_t index, bool thorough)
 {
     Rng rng(hash_seed(seed, "C08", index));
-    std::vector<std::string> pk = keys_for({ "G1", "G1", "G6", "G7", "G7", "G11", "G11", "T1" });
+    std::vector<std::string> pk = keys_for({ "G1", "G1", "G6", "G7", "G7", "G11", "G11", "G13", "G13", "T1" });
     std::string key = rng.pick(pk);
     const ref::Model* m = model_for(grammar_of(key));
     OpShape sh;
@@ -531,7 +532,7 @@ static bool c08_compare(const Plan& p, const OpResult& o, const ref::RefResult& 
 // nonterminal, so observation O1 cannot touch them): for these the recovery outcome is ALSO judged against the
 // canonical construction, so that a table that stops offering the error symbol where the grammar says it can be
 // accepted is reported. The other recovery grammars (G1) are judged over the parser's own table only.
-static bool canonical_recovery_grammar(const std::string& g) { return g == "G6" || g == "G7" || g == "G11" || g == "T1"; }
+static bool canonical_recovery_grammar(const std::string& g) { return g == "G6" || g == "G7" || g == "G11" || g == "G13" || g == "T1"; }
 
 static std::vector<Violation> case_c08(const Plan& p, CaseCtx& cx)
 {
@@ -598,7 +599,7 @@ static Plan gen_c18(uint64_t seed, int64_t index, bool thorough)
     sh.p_skip_ws_off = 15; sh.p_skip_nl_off = 20;
     sh.buffers = { BUF_SIM, BUF_SIM, BUF_STRING, BUF_VIEW, BUF_CSTRING };
     sh.streams = { STR_SIM, STR_SIM, STR_OSS, STR_NONE };
-    sh.p_verbose = 10;
+    sh.p_verbose = 25;
     PlanOp op = make_sentence_op(rng, key, sh);
     std::string mode;
     uint64_t k = rng.below(100);
@@ -661,6 +662,14 @@ static std::vector<Violation> case_c18(const Plan& p, CaseCtx& cx)
             }
         }
     }
+    // the options handed to the peer: match_options carries the caller's verbose flag, as it does for the generated lexer
+    for (size_t i = 0; i < o.rec.lexes.size(); ++i)
+        if ((o.rec.lexes[i].verbose != 0) != o.op.verbose)
+        {
+            vs.push_back(make_violation("C18", "lexer_options_not_forwarded", "lexer request #" + std::to_string(i) + " received match_options.verbose=" + std::to_string(o.rec.lexes[i].verbose) +
+                " while the call was made with verbose=" + (o.op.verbose ? "1" : "0") + "; " + brief, p));
+            return vs;
+        }
     // the slices handed to the custom terms' functors
     {
         size_t n = std::max(o.rec.termfs.size(), r.shifted.size());
